@@ -35,6 +35,9 @@ def main():
         failed = {l.split(" ")[1] for l in out.splitlines() if l.startswith("FAILED ")}
         log["suite_failed_beyond_known"] = sorted(failed - KNOWN_FAIL)
         log["suite_tail"] = out.strip().splitlines()[-1] if out.strip() else ""
+        log["suite_errors"] = [l for l in out.splitlines() if l.startswith("ERROR ")][:5]
+        if "425 passed" not in log["suite_tail"]:
+            log["suite_failed_beyond_known"] = log["suite_failed_beyond_known"] + ["(suite did not report 425 passed)"]
         rc, out = sh(["/venv/bin/python", demo], cwd=wt)
         log["demo_with_change"] = rc
         log["demo_output"] = out[-600:]
